@@ -50,6 +50,7 @@ type frame struct {
 	rangeMap map[*ssa.Range]Value
 	namedResults []Value
 	loopTraceStart map[*ssa.BasicBlock]int
+	unrollCount map[*ssa.BasicBlock]int
 }
 
 // Snapshot captures the heap at a point, for old() / atlock().
@@ -94,6 +95,12 @@ func (s *State) clone() *State {
 			namedResults: f.namedResults, loopTraceStart: make(map[*ssa.BasicBlock]int, len(f.loopTraceStart))}
 		for k, v := range f.loopTraceStart {
 			nf.loopTraceStart[k] = v
+		}
+		if f.unrollCount != nil {
+			nf.unrollCount = make(map[*ssa.BasicBlock]int, len(f.unrollCount))
+			for k, v := range f.unrollCount {
+				nf.unrollCount[k] = v
+			}
 		}
 		for k, v := range f.vals {
 			nf.vals[k] = v
@@ -153,6 +160,14 @@ type Obligation struct {
 	Model   string
 	SMTSize int
 	decls   *Decls
+	Witness []WitnessTerm
+	Values  map[string]string // witness values from the model (sat verdicts)
+}
+
+// WitnessTerm names an input-describing term whose model value is extracted for replay.
+type WitnessTerm struct {
+	Name string
+	T    Term
 }
 
 type heapDecl struct {
@@ -186,6 +201,7 @@ type Ctx struct {
 	resumeHeader *ssa.BasicBlock
 	pendingOnce *onceCall
 	localRefs []string // refs allocated during the current effects-discovery run
+	witness   []WitnessTerm
 }
 
 func (c *Ctx) freshConst(hint string, s Sort) Term {
@@ -621,7 +637,7 @@ func (c *Ctx) oblige(s *State, kind, name string, goal Term, pos, note string, p
 		c.obls = append(c.obls, &Obligation{Name: name, Fn: c.key, Kind: kind, Goal: goal, Pos: pos, Note: note, Props: props, Verdict: "syntactic", Backend: "syntactic", decls: c.d})
 		return
 	}
-	c.obls = append(c.obls, &Obligation{Name: name, Fn: c.key, Kind: kind, Assume: append([]Term(nil), s.pc...), Goal: goal, Pos: pos, Note: note, Props: props, decls: c.d})
+	c.obls = append(c.obls, &Obligation{Name: name, Fn: c.key, Kind: kind, Assume: append([]Term(nil), s.pc...), Goal: goal, Pos: pos, Note: note, Props: props, decls: c.d, Witness: c.witness})
 }
 
 func (c *Ctx) structural(ok bool, kind, name, pos, note string, props []string) {
